@@ -1,0 +1,10 @@
+// Copyright 2013-2020 go-diameter authors. All rights reserved.
+// Use of this source code is governed by a BSD-style license that can be
+// found in the LICENSE file.
+
+//go:build !verif
+
+package sm
+
+// vevent is the verification hook; it does nothing unless built with the "verif" tag.
+func vevent(string, interface{}, ...interface{}) {}
